@@ -28,12 +28,14 @@ def tests(tier):
     take(c03, "c03", {"bash", "prg", "prg_inv"}, BASH, 0.2)
     take(c03, "c03", {"brng", "botp"}, GEN, 0.1)
     take(c05, "c05", {"zz_add", "zz_mul", "zz_mod", "zz_red", "zz_pow", "ww", "ring", "gf2", "pp", "ppmod"}, ("rel", "relfast", "O0", "clangO2", "w32rel", "w32fast"), 0.1)
-    take(c02, "c02", {"sign"}, ("rel", "relfast", "w32rel", "clangO2"), 0.12)
+    take(c02, "c02", {"sign"}, ("rel", "relfast", "w32rel", "clangO2", "O2a"), 0.12)
     take(c06, "c06", {"mul"}, ("rel", "relfast", "O0", "w32rel", "clangO2"), 0.3)
     take(c13, "c13", {"share"}, ("rel", "w32rel", "relfast", "clangO2"), 0.1)
     # in-configuration differentials (overlapped vs disjoint placement, chunked vs one-shot): the same verdict must come out with asserts on
     # (O0 / O2a: a library ASSERT that fires on an admissible call is a difference between the debug and the release build) and off
-    from props import c10, c11
+    from props import c10, c11, c12, c14
+    take(c14, "c14", {"safe_fast"}, ("rel", "w32rel", "O0", "clangO2"), 0.1)        # regular and fast editions against the expected value in both word sizes
+    take(c12, "c12", {"primes_big", "nextprime", "params_stb99", "seeds"}, ("rel", "w32rel", "w32fast"), 0.15)
     take(c11, "c11", {"overlap"}, ("O2a", "rel", "w32rel", "relfast"), 0.08)
     take(c10, "c10", {"cipher", "mac", "aead", "misc"}, ("O2a", "w32rel", "relfast"), 0.05)
     return out
